@@ -3,8 +3,9 @@ C01 — TTLV codec round trip for every encodable value.
 
 Three layers:
  * M2 (`KmipModel/Prim.lean`, the primitive classes of /repo as they are): one round-trip theorem per class
-   with exactly the guard the code enforces, the characterisation of the values a constructor accepts but
-   `write` rejects (non-ASCII text, Interval/Enumeration 2^32, 4 GiB lengths), with witnesses;
+   with exactly the guard the code enforces; every value a constructor accepts is encodable unless its length
+   exceeds the 32-bit length field (the former deviations — non-ASCII text, Interval/Enumeration 2^32, the padding
+   a decoded Text String wrote — are repaired in /repo and appear here as the now-true full statements);
  * M1 (`KmipModel/TTLV.lean`, the TTLV item tree): `decode (encode i ++ rest) = (i, rest)` for every valid
    item and every suffix — no bound on size or nesting —, `encode (decode bs) = bs` for everything the decoder
    accepts, hence decode-encode-decode stability;
@@ -68,9 +69,9 @@ theorem boolean_decode_encode (tag : Nat) (b : Bool) (m : Nat → Bool) (rest : 
     ∃ bs, pyEncode tag (.boolean b) = .ok bs ∧ pyDecode 6 tag m (bs ++ rest) = .ok (.boolean b, rest) :=
   ⟨_, pyEncode_eq tag _ trivial, pyDecode_encode tag _ m rest ht trivial (fun _ hx => by cases hx)⟩
 
-/-- text round-trips exactly when it is ASCII (and shorter than 4 GiB) -/
-theorem textString_decode_encode (tag : Nat) (cps : List Nat) (m : Nat → Bool) (rest : Bytes) (ht : tag < 256 ^ 3)
-    (h : (∀ c ∈ cps, c < 128) ∧ cps.length < 256 ^ 4) :
+/-- every text (any str, represented by its UTF-8 bytes, see Prim.lean TEXT) shorter than 4 GiB round-trips -/
+theorem textString_decode_encode (tag : Nat) (cps : Bytes) (m : Nat → Bool) (rest : Bytes) (ht : tag < 256 ^ 3)
+    (h : validUtf8 cps = true ∧ cps.length < 256 ^ 4) :
     ∃ bs, pyEncode tag (.textString cps) = .ok bs ∧ pyDecode 7 tag m (bs ++ rest) = .ok (.textString cps, rest) :=
   ⟨_, pyEncode_eq tag _ h, pyDecode_encode tag _ m rest ht h (fun _ hx => by cases hx)⟩
 
@@ -90,14 +91,13 @@ theorem interval_decode_encode (tag : Nat) (v : Int) (m : Nat → Bool) (rest : 
     ∃ bs, pyEncode tag (.interval v) = .ok bs ∧ pyDecode 10 tag m (bs ++ rest) = .ok (.interval v, rest) :=
   ⟨_, pyEncode_eq tag _ h, pyDecode_encode tag _ m rest ht h (fun _ hx => by cases hx)⟩
 
-/-- **Constructible but not encodable** — the complete list: a constructor accepts the value (`validate`
-passes) and `write` raises exactly for text with a non-ASCII character, Interval / Enumeration 2^32
-(`MAX` is one too large), and values whose length does not fit the 32-bit length field. -/
+/-- **Everything a constructor accepts can be written**, the 32-bit length field being the only limit: a
+constructor accepts the value and `write` raises exactly for Text / Byte Strings of 4 GiB or more and Big Integers
+whose encoding would be that long. -/
 theorem prim_unencodable_iff (v : PyVal) :
     (v.constructible ∧ ¬ v.encodable) ↔
-      ((∃ cps, v = .textString cps ∧ ∃ c ∈ cps, 128 ≤ c) ∨ v = .interval 4294967296 ∨ v = .enumeration 4294967296 ∨
-       (∃ cps, v = .textString cps ∧ 256 ^ 4 ≤ cps.length) ∨ (∃ s, v = .byteString s ∧ 256 ^ 4 ≤ s.length) ∨
-       (∃ x, v = .bigInteger x ∧ 256 ^ 4 ≤ pyBigLen x)) := by
+      ((∃ s, v = .textString s ∧ validUtf8 s = true ∧ 256 ^ 4 ≤ s.length) ∨
+       (∃ s, v = .byteString s ∧ 256 ^ 4 ≤ s.length) ∨ (∃ x, v = .bigInteger x ∧ 256 ^ 4 ≤ pyBigLen x)) := by
   cases v with
   | integer x =>
     simp only [PyVal.constructible, PyVal.encodable, fitsTC4_iff, reduceCtorEq, false_and, exists_false,
@@ -115,74 +115,69 @@ theorem prim_unencodable_iff (v : PyVal) :
   | bigInteger x => simp [PyVal.constructible, PyVal.encodable]
   | byteString s => simp [PyVal.constructible, PyVal.encodable]
   | enumeration x =>
-    simp only [PyVal.constructible, PyVal.encodable, reduceCtorEq, false_and, exists_false, false_or, or_false,
-      PyVal.enumeration.injEq]
+    simp only [PyVal.constructible, PyVal.encodable, reduceCtorEq, false_and, exists_false, or_false, iff_false]
     omega
   | interval x =>
-    simp only [PyVal.constructible, PyVal.encodable, reduceCtorEq, false_and, exists_false, false_or, or_false,
-      PyVal.interval.injEq]
+    simp only [PyVal.constructible, PyVal.encodable, reduceCtorEq, false_and, exists_false, or_false, iff_false]
     omega
-  | textString cps =>
-    simp only [PyVal.constructible, PyVal.encodable, true_and, reduceCtorEq, false_and, exists_false, false_or,
-      or_false, PyVal.textString.injEq, exists_eq_left']
+  | textString s =>
+    simp only [PyVal.constructible, PyVal.encodable, reduceCtorEq, false_and, exists_false, or_false,
+      PyVal.textString.injEq, exists_eq_left']
     constructor
-    · intro h
-      by_cases hl : cps.length < 256 ^ 4
-      · left
+    · rintro ⟨hv, hn⟩
+      exact ⟨hv, by
         apply Classical.byContradiction
-        intro hn
-        apply h
-        refine ⟨fun c hc => ?_, hl⟩
-        apply Classical.byContradiction
-        intro hc2
-        exact hn ⟨c, hc, by omega⟩
-      · right; omega
-    · rintro (⟨c, hc, h128⟩ | hl) ⟨hall, hlen⟩
-      · have := hall c hc; omega
-      · omega
+        intro hlt
+        exact hn ⟨hv, by omega⟩⟩
+    · rintro ⟨hv, hl⟩
+      exact ⟨hv, fun h => by omega⟩
 
-/-- F-C01-a: `TextString('é')` is accepted by the constructor and `write` raises -/
-theorem textString_nonascii_unencodable (tag : Nat) :
-    (PyVal.textString [233]).constructible ∧ pyEncode tag (.textString [233]) = .error .nonAscii := by
-  refine ⟨trivial, ?_⟩
-  simp [pyEncode, pyLength, pyValue, packText, Except.map]
-
-/-- F-C01-b: `Interval(4294967296)` is accepted by the constructor and `write` raises -/
-theorem interval_2_32_unencodable (tag : Nat) :
-    (PyVal.interval 4294967296).constructible ∧ pyEncode tag (.interval 4294967296) = .error .packRange := by
-  refine ⟨by decide, ?_⟩
-  simp [pyEncode, pyLength, pyValue, packUnsigned, Except.map]
-
-/-- the same off-by-one bound sits in Enumeration (no enum class of /repo has a member 2^32) -/
-theorem enumeration_2_32_unencodable (tag : Nat) :
-    (PyVal.enumeration 4294967296).constructible ∧ pyEncode tag (.enumeration 4294967296) = .error .packRange := by
-  refine ⟨by decide, ?_⟩
-  simp [pyEncode, pyLength, pyValue, packUnsigned, Except.map]
-
-/-- **Re-encoding a decoded primitive reproduces the bytes, except** a TextString whose length is a multiple
-of 8 (0, 8, 16, …): the decoded object keeps `padding_length = 8` and writes eight extra zero bytes. -/
-theorem prim_reencode_decoded_iff (tag : Nat) (v : PyVal) (h : v.encodable) :
-    pyReencode tag v = pyEncode tag v ↔ ¬ ∃ cps, v = .textString cps ∧ cps.length % 8 = 0 := by
+/-- in particular every constructible Integer, Long Integer, Enumeration, Boolean, Date-Time and Interval is
+encodable (Interval / Enumeration 2^32 are no longer accepted by the constructors: F-C01-b repaired) -/
+theorem fixed_width_constructible_encodable (v : PyVal) (hc : v.constructible)
+    (hk : v.typeCode ≠ 4 ∧ v.typeCode ≠ 7 ∧ v.typeCode ≠ 8) : v.encodable := by
   cases v with
-  | textString cps =>
-    rw [pyEncode_eq tag _ h]
-    simp only [pyReencode, PyVal.textString.injEq, exists_eq_left']
-    by_cases h8 : cps.length % 8 = 0
-    · simp only [h8, if_true, not_true, iff_false]
-      rw [pyEncode_eq tag _ h]
-      simp only [Except.map, Except.ok.injEq]
-      intro hc
-      have := congrArg List.length hc
-      simp [zeros] at this
-    · simp only [h8, if_false, not_false_iff, iff_true]
-      exact pyEncode_eq tag _ h
-  | _ => simp [pyReencode]
+  | integer x => exact (fitsTC4_iff x).mpr hc
+  | longInteger x => exact (fitsTC8_iff x).mpr hc
+  | dateTime x => exact (fitsTC8_iff x).mpr hc
+  | boolean b => trivial
+  | enumeration x => simp only [PyVal.constructible] at hc; simp only [PyVal.encodable]; omega
+  | interval x => simp only [PyVal.constructible] at hc; simp only [PyVal.encodable]; omega
+  | bigInteger x => simp [PyVal.typeCode] at hk
+  | textString s => simp [PyVal.typeCode] at hk
+  | byteString s => simp [PyVal.typeCode] at hk
 
-/-- e.g. the empty text: written as 8 bytes by the constructor-made object, as 16 by the decoded one -/
-theorem textString_reencode_witness :
-    pyEncode 0x420055 (.textString []) = .ok [0x42, 0x00, 0x55, 7, 0, 0, 0, 0] ∧
-    pyReencode 0x420055 (.textString []) = .ok [0x42, 0x00, 0x55, 7, 0, 0, 0, 0, 0, 0, 0, 0, 0, 0, 0, 0] := by
-  constructor <;> rfl
+/-- F-C01-a repaired: non-ASCII text (here "é" = C3 A9) is written and read back -/
+theorem textString_nonascii_roundtrip (tag : Nat) (m : Nat → Bool) (rest : Bytes) (ht : tag < 256 ^ 3) :
+    ∃ bs, pyEncode tag (.textString [0xC3, 0xA9]) = .ok bs ∧
+      pyDecode 7 tag m (bs ++ rest) = .ok (.textString [0xC3, 0xA9], rest) :=
+  textString_decode_encode tag _ m rest ht (by decide)
+
+/-- F-C01-b repaired: the constructors reject 2^32 -/
+theorem interval_enumeration_2_32_rejected :
+    ¬ (PyVal.interval 4294967296).constructible ∧ ¬ (PyVal.enumeration 4294967296).constructible := by
+  constructor <;> decide
+
+theorem decodedPad_eq (len : Nat) : decodedPad len = padLen len := by
+  unfold decodedPad padLen; split <;> omega
+
+/-- **Re-encoding a decoded primitive reproduces the bytes** — for every value: an object filled by `read`
+writes exactly what a constructor-made object of the same value writes. -/
+theorem prim_reencode_decoded (tag : Nat) (v : PyVal) : pyReencode tag v = pyEncode tag v := by
+  cases v with
+  | textString s =>
+    by_cases hv : validUtf8 s = true <;> by_cases hl : pyLength (.textString s) < 256 ^ 4 <;>
+      simp [pyReencode, pyEncode, pyValue, packText, hv, hl, Except.map, decodedPad_eq]
+  | byteString s =>
+    unfold pyReencode pyEncode
+    split
+    · simp only [pyValue, decodedPad_eq]
+    · rfl
+  | _ =>
+    unfold pyReencode pyEncode
+    split
+    · split <;> simp_all
+    · rfl
 
 /-! ### M1: item trees of any size and nesting -/
 
@@ -251,8 +246,10 @@ example : decodeAll (encode sample) = some sample := decodeAll_encode sample sam
 /-- the guards of the per-class theorems are satisfiable at their boundaries -/
 example : (PyVal.integer (-2147483648)).encodable ∧ (PyVal.integer 2147483647).encodable := by
   simp only [PyVal.encodable, fitsTC4_iff]; omega
-example : (PyVal.textString [0, 127]).encodable := by
-  simp [PyVal.encodable]
+example : (PyVal.textString [0, 127, 0xE6, 0x97, 0xA5, 0xF0, 0x9F, 0x94, 0x91]).encodable := by
+  simp only [PyVal.encodable]; decide
+example : validUtf8 [0xC0, 0x80] = false ∧ validUtf8 [0xED, 0xA0, 0x80] = false ∧ validUtf8 [0xF4, 0x90, 0x80, 0x80] = false := by
+  decide
 example : (PyVal.interval 4294967295).encodable := by
   simp [PyVal.encodable]
 
